@@ -17,11 +17,12 @@ faster than rank 0 can receive them."
 Part 1 (this section of the file) holds for EVERY run of the model (`run`: a list of actions replayed
 through `ParArch.step`), with no fairness and no speed assumption.  The only hypothesis on the observed
 actions is `slicePos`: every completed `island.evolve` slice of rank 0 adds at least one generation
-(`sync_frequency ≥ 1`; with `k = 0` rank 0's loop `while average_age < target_age` need not make
-progress at all).
+(`sync_frequency ≥ 1`; with `k = 0` rank 0's loop `while sum(total_age.values()) < target_total_age` need
+not make progress at all).
 
-* `rank0_evolves_bounded`   -- rank 0 completes at most `R * target - sum(total_age.values()) + 1` slices
-                               (`R * target` from the start of a call);
+* `rank0_evolves_bounded`   -- rank 0 completes at most `target_total_age - sum(total_age.values()) + 1`
+                               slices (`R * numSteps` from the start of a call: one call performs at most
+                               `R * numSteps` loop iterations on rank 0);
 * `rank0_steps_bounded`     -- `(protocol operations of rank 0) + Φ(end) ≤ Φ(start) + 2 * (helper age sends)`;
 * `helper_steps_after_exit_bounded` -- once its EXIT_NOTIFICATION is sent a helper performs at most 6
                                more protocol operations in the whole call, at most 5 before it is inside
@@ -30,9 +31,11 @@ progress at all).
                                all ranks) in a run is bounded by a constant of the start state plus 2
                                (plus 5) per helper age send.
 
-Part 2 (`terminates_fair`, `terminates_fair_call`, `drain_phase_terminates`): infinite executions
-(`IsExec`), fairness (`Fair`), and the speed assumption `SpeedBound p q D` with `2 * q < p`: the call
-returns on every rank.
+Part 2 (`terminates_fair`, `terminates_fair_call`, `drain_phase_terminates`, `collecting_terminates`):
+infinite executions (`IsExec`), fairness (`Fair`), and the speed assumption `SpeedBound p q D` with
+`2 * q < p`: the call returns on every rank.  Fairness alone gets rank 0 through the collecting loop at the
+start of `_non_blocking_execution_main` (a helper before its first `_send_updated_age()` can always move,
+and a waiting message of the awaited source enables the receive).
 
 Reading of part 1: the only unbounded resource of the protocol is the stream of AGE_UPDATE messages.  An
 execution in which the call does not return must contain infinitely many helper age sends, and rank 0
@@ -47,76 +50,82 @@ open ParArch
 
 /-! ## the start of a call satisfies both invariants -/
 
-theorem tableSum_replicate_none (n : Nat) : tableSum (List.replicate n none) = 0 := by
-  induction n with
-  | zero => rfl
-  | succ n ih => simp [tableSum, List.replicate_succ] at ih ⊢
+theorem budget_initial (R sync n : Nat) (ages : List Nat) (hR : 0 < R) :
+    budget (initial R sync n ages) = R * n := by
+  unfold initial
+  split
+  · exact budget_c rfl
+  · exact (finishCollect_facts (collectStart R sync n ages) hR).1
 
-theorem budget_initial (R sync target : Nat) (ages : List Nat) (archAge : Nat) :
-    budget (initial R sync target ages archAge) = R * target := by
-  show R * target - tableSum (List.replicate R none) = R * target
-  rw [tableSum_replicate_none]; rfl
-
-/-- `Φ` at the start of a call: two per generation·rank to go, plus the length of the exit path -/
-theorem phi_initial_le (R sync target : Nat) (ages : List Nat) (archAge : Nat) (hR : 0 < R) :
-    Phi (initial R sync target ages archAge) ≤ 2 * (R * target) + R + 6 := by
-  have hb := budget_initial R sync target ages archAge
-  have hm : (initial R sync target ages archAge).mbox.length = 0 := rfl
-  have hRR : (initial R sync target ages archAge).R = R := rfl
-  have hpc : (initial R sync target ages archAge).pc0 = (if archAge < target then .evolving else afterExit R 1) := rfl
+/-- `Φ` at the start of a call: two per generation·rank to go, plus the `R - 1` collecting receives and the
+length of the exit path -/
+theorem phi_initial_le (R sync n : Nat) (ages : List Nat) (hR : 0 < R) :
+    Phi (initial R sync n ages) ≤ 2 * (R * n) + 2 * R + 4 := by
+  have hb := budget_initial R sync n ages hR
+  have hm : (initial R sync n ages).mbox.length = 0 := by rw [initial_mbox]; rfl
+  have hRR : (initial R sync n ages).R = R := (initial_frame R sync n ages).1
   unfold Phi
-  rw [hb, hm, hRR, hpc]
-  by_cases h : archAge < target
-  · simp only [h, if_true, ordPc]; split <;> omega
-  · simp only [h, if_false]
-    have := ordPc_afterExit_one R (R * target) hR
-    omega
-
-theorem psi_initial (R sync target : Nat) (ages : List Nat) (archAge : Nat) (hR : 0 < R) :
-    Psi (initial R sync target ages archAge) = R * target := by
-  have hb := budget_initial R sync target ages archAge
-  have hpc : (initial R sync target ages archAge).pc0 = (if archAge < target then .evolving else afterExit R 1) := rfl
-  unfold Psi
-  rw [hb, hpc]
-  by_cases h : archAge < target
-  · have : R * target ≠ 0 := by
-      have : 0 < R * target := Nat.mul_pos hR (by omega)
+  rw [hb, hm, hRR]
+  have : ordPc R (R * n) (initial R sync n ages).pc0 ≤ 2 * R + 4 := by
+    unfold initial
+    split
+    · show R + 5 + (R - 1) ≤ 2 * R + 4
       omega
-    simp only [h, if_true, loopExtra, this, if_false]; omega
-  · simp only [h, if_false, loopExtra_afterExit]; omega
+    · have := (finishCollect_facts (collectStart R sync n ages) hR).2.1
+      have h' : ordPc R (R * n) (finishCollect (collectStart R sync n ages)).pc0 ≤ R + 4 := this
+      omega
+  omega
+
+theorem psi_initial (R sync n : Nat) (ages : List Nat) (hR : 0 < R) :
+    Psi (initial R sync n ages) = R * n := by
+  have hb := budget_initial R sync n ages hR
+  unfold Psi
+  rw [hb]
+  have : loopExtra (R * n) (initial R sync n ages).pc0 = 0 := by
+    unfold initial
+    split
+    · rfl
+    · exact loopExtra_finish (collectStart R sync n ages) hR
+  omega
 
 /-! ## (a) loop iterations of rank 0 -/
 
 /-- **(a)** In every run from a state satisfying the invariants, rank 0 completes at most
-`Psi s0 ≤ R * target - sum(total_age.values()) + 1` slices `island.evolve(sync)`: every loop iteration
-raises `sum(total_age.values())` by at least 1 (entry 0 by `k ≥ 1`; a helper's entry is only ever
-replaced by a newer, hence not smaller, age), and the loop is left as soon as the sum reaches
-`R * target`.  The `+ 1` is the exceptional start "in the loop although the condition already fails". -/
+`Psi s0 ≤ budget s0 + 1` slices `island.evolve(sync)`, where `budget s0` is
+`target_total_age - sum(total_age.values())` (and `R * numSteps`, the value this difference will have once
+`target_total_age` is assigned, while rank 0 is still in the collecting loop): every loop iteration raises
+`sum(total_age.values())` by at least 1 (entry 0 by `k ≥ 1`; a helper's entry is only ever replaced by a
+newer, hence not smaller, age), and the loop is left as soon as the sum reaches `target_total_age`.  The
+`+ 1` is the exceptional start "in the loop although the condition already fails" (not reachable from
+the start of a call, see `rank0_evolves_bounded_call`). -/
 theorem rank0_evolves_bounded {s0 s : State} {as : List Action} (inv : Inv s0) (mono : Mono s0)
     (hk : ∀ a, a ∈ as → slicePos a = true) (h : run s0 as = some s) :
-    as.countP isEvolve0 + Psi s ≤ Psi s0 ∧ Psi s0 ≤ s0.R * s0.target - tableSum s0.table + 1 := by
+    as.countP isEvolve0 + Psi s ≤ Psi s0 ∧ Psi s0 ≤ budget s0 + 1 ∧
+    (isCollecting s0.pc0 = false → budget s0 = s0.goal - tableSum s0.table) ∧
+    (isCollecting s0.pc0 = true → budget s0 = s0.R * s0.numSteps) := by
   constructor
   · have := run_count_bound (fun s => Inv s ∧ Mono s) slicePos Psi isEvolve0 (fun _ => false) 0
       (fun hs hst => ⟨inv_step hs.1 hst, mono_step hs.1 hs.2 hst⟩)
       (fun hs hg hst => by simpa using psi_step hs.1 hs.2 hg hst) as s0 s ⟨inv, mono⟩ hk h
     omega
   · have := loopExtra_le (budget s0) s0.pc0
-    simp only [Psi, budget] at this ⊢
+    refine ⟨?_, budget_nc, budget_c⟩
+    simp only [Psi] at this ⊢
     omega
 
-/-- (a) for one call of `_non_blocking_execution`: at most `R * target` slices on rank 0 -/
-theorem rank0_evolves_bounded_call {R sync target archAge : Nat} {ages : List Nat} (hR : 0 < R)
-    (hpre : CallPre R target archAge ages) {s : State} {as : List Action}
-    (hk : ∀ a, a ∈ as → slicePos a = true) (h : run (initial R sync target ages archAge) as = some s) :
-    as.countP isEvolve0 ≤ R * target := by
-  have := (rank0_evolves_bounded (inv_initial R sync target ages archAge hR hpre)
-    (mono_initial R sync target ages archAge) hk h).1
-  rw [psi_initial R sync target ages archAge hR] at this
+/-- (a) for one call of `_non_blocking_execution(n)`: at most `R * n` loop iterations (slices) on rank 0 -/
+theorem rank0_evolves_bounded_call {R sync n : Nat} {ages : List Nat} (hR : 0 < R)
+    {s : State} {as : List Action}
+    (hk : ∀ a, a ∈ as → slicePos a = true) (h : run (initial R sync n ages) as = some s) :
+    as.countP isEvolve0 ≤ R * n := by
+  have := (rank0_evolves_bounded (inv_initial R sync n ages hR) (mono_initial R sync n ages) hk h).1
+  rw [psi_initial R sync n ages hR] at this
   omega
 
 /-! ## (b) protocol operations of rank 0 -/
 
-/-- **(b)** The potential `Φ s = 2 * (R * target - sum(total_age.values())) + 2 * |mailbox| + ordPc …`
+/-- **(b)** The potential `Φ s = 2 * budget s + 2 * |mailbox| + ordPc …`
+(`budget s = target_total_age - sum(total_age.values())`; `ordPc` counts the remaining collecting receives)
 (`Phi`, `Proofs/Lemmas/ParArchLivePot.lean`) drops by at least 1 with every protocol operation of rank 0
 and rises by exactly 2 with every helper `_send_updated_age` (`phi_step`).  Hence, in every run, the
 number of protocol operations of rank 0 is at most `Φ(start) + 2 * (helper age sends)`. -/
@@ -186,9 +195,10 @@ theorem helper_steps_after_exit_bounded_mid {s0 s1 s2 : State} {as1 as2 : List A
 `Φ(start) + 2 * (number of helper age sends in the run)`.
 
 Reading for infinite executions: every finite prefix obeys the bound, and `Φ(start)` is a constant of
-the call (`≤ 2 * R * target + R + 6`, `phi_initial_le`).  So if rank 0 performs infinitely many
+the call (`≤ 2 * R * numSteps + 2 * R + 4`, `phi_initial_le`).  So if rank 0 performs infinitely many
 protocol operations -- which, rank 0 being never blocked before the barrier (`C12.enabled0`), is what
-a fair execution looks like in which rank 0 does not reach the barrier -- then the helpers perform
+a fair execution looks like in which rank 0 does not reach the barrier (fairness also gets it through
+the at most `R - 1` blocking receives of the collecting loop, `collecting_terminates`) -- then the helpers perform
 infinitely many `_send_updated_age`.  Together with `rank0_evolves_bounded` (finitely many loop
 iterations) this pins the livelock down: rank 0 stays in ONE `_gather_updated_ages` drain phase forever,
 receiving age updates at least as fast as it can probe for the next one.  No other non-returning fair
@@ -210,32 +220,31 @@ theorem all_steps_bounded {s0 s : State} {as : List Action} (inv : Inv s0) (mono
     (fun hs hg hst => glob_step hs.1 hs.2 hg hst) as s0 s ⟨inv, mono⟩ hk h
   omega
 
-/-- (d) for one call: at most `2 * R * target + R + 6 + 2 * sends` protocol operations of rank 0 -/
-theorem livelock_needs_helper_sends_call {R sync target archAge : Nat} {ages : List Nat} (hR : 0 < R)
-    (hpre : CallPre R target archAge ages) {s : State} {as : List Action}
-    (hk : ∀ a, a ∈ as → slicePos a = true) (h : run (initial R sync target ages archAge) as = some s) :
-    as.countP r0Proto ≤ 2 * (R * target) + R + 6 + 2 * as.countP helperSend := by
-  have h1 := livelock_needs_helper_sends (inv_initial R sync target ages archAge hR hpre)
-    (mono_initial R sync target ages archAge) hk h
-  have h2 := phi_initial_le R sync target ages archAge hR
+/-- (d) for one call: at most `2 * R * n + 2 * R + 4 + 2 * sends` protocol operations of rank 0 (the
+`R - 1` collecting receives are part of the constant) -/
+theorem livelock_needs_helper_sends_call {R sync n : Nat} {ages : List Nat} (hR : 0 < R)
+    {s : State} {as : List Action}
+    (hk : ∀ a, a ∈ as → slicePos a = true) (h : run (initial R sync n ages) as = some s) :
+    as.countP r0Proto ≤ 2 * (R * n) + 2 * R + 4 + 2 * as.countP helperSend := by
+  have h1 := livelock_needs_helper_sends (inv_initial R sync n ages hR) (mono_initial R sync n ages) hk h
+  have h2 := phi_initial_le R sync n ages hR
   omega
 
 /-! ## non-vacuity -/
 
-/-- the complete run of `Props/C12.lean` (two ranks, one generation): 18 actions, 10 protocol operations
-of rank 0 (1 slice), 8 of the helper, 2 of them age sends; `Φ` goes from `2*2 + 0 + (2+4) = 10` to 0,
-and `10 ≤ 10 + 2*2` -/
+/-- the complete run of `Props/C12.lean` (two ranks, one generation): 17 actions, 9 protocol operations
+of rank 0 (1 collecting receive, 1 slice), 8 of the helper, 2 of them age sends; `Φ` goes from
+`2*2 + 0 + (2+5+1) = 12` to 0, and `9 ≤ 12 + 2*2` -/
 example :
     let s0 := initial 2 1 1 [0, 0]
-    let as := [Action.isend 1 0 tagAge, .iprobe 1 (some 0) tagExit none, .evolve 1 1, .evolve 0 1,
-      .iprobe 0 none tagAge (some 1), .recv 0 1 tagAge, .isend 1 0 tagAge, .iprobe 0 none tagAge (some 1),
-      .recv 0 1 tagAge, .iprobe 0 none tagAge none, .isend 0 1 tagExit, .barrierEnter 0,
-      .iprobe 1 (some 0) tagExit (some 0), .recv 1 0 tagExit, .barrierEnter 1, .barrierLeave 0,
-      .iprobe 0 none tagAge none, .barrierLeave 1]
+    let as := [Action.isend 1 0 tagAge, .recv 0 1 tagAge, .iprobe 1 (some 0) tagExit none, .evolve 1 1, .evolve 0 1,
+      .isend 1 0 tagAge, .iprobe 0 none tagAge (some 1), .recv 0 1 tagAge, .iprobe 0 none tagAge none,
+      .isend 0 1 tagExit, .barrierEnter 0, .iprobe 1 (some 0) tagExit (some 0), .recv 1 0 tagExit,
+      .barrierEnter 1, .barrierLeave 0, .iprobe 0 none tagAge none, .barrierLeave 1]
     (run s0 as).map (fun s => (isFinal s, Phi s, Psi s, Glob s)) = some (true, 0, 0, 0) ∧
-    (Phi s0, Psi s0, Glob s0) = (10, 2, 12) ∧
+    (Phi s0, Psi s0, Glob s0) = (12, 2, 14) ∧
     (as.countP r0Proto, as.countP isEvolve0, as.countP helperSend, as.countP nonTick, as.countP (rProto 1))
-      = (10, 1, 2, 18, 8) ∧
+      = (9, 1, 2, 17, 8) ∧
     as.all slicePos = true := by decide
 
 /-- the helper after its notification: from the state after `isend 0 1 EXIT`, with the helper just past
@@ -243,9 +252,8 @@ a negative probe (the worst case), exactly 6 more protocol operations of the hel
 inside the barrier -/
 example :
     let s0 := initial 2 1 1 [0, 0]
-    let as1 := [Action.isend 1 0 tagAge, .evolve 0 1, .iprobe 0 none tagAge (some 1), .recv 0 1 tagAge,
-      .iprobe 0 none tagAge none, .evolve 0 1, .iprobe 0 none tagAge none, .iprobe 1 (some 0) tagExit none,
-      .isend 0 1 tagExit]
+    let as1 := [Action.isend 1 0 tagAge, .recv 0 1 tagAge, .evolve 0 1, .iprobe 0 none tagAge none, .evolve 0 1,
+      .iprobe 0 none tagAge none, .iprobe 1 (some 0) tagExit none, .isend 0 1 tagExit]
     let as2 := [Action.tick 1, .evolve 1 1, .isend 1 0 tagAge, .iprobe 1 (some 0) tagExit (some 0),
       .recv 1 0 tagExit, .barrierEnter 1]
     ((run s0 as1).map fun s => (exitSent s.pc0 1, pcOf s 1, hPot (pcOf s 1))) = some (true, PcH.evolving, 6) ∧
@@ -274,7 +282,18 @@ scheduling points satisfies it with `p = c + 2`, `q = R - 1` and a slack `D` of 
 while rank 0 performs `w` operations (it is never blocked while draining) each helper gets at most `w + 1`
 turns and needs `c + 2` of them per loop iteration (probe, `c` points including the completion of the
 slice, send); `2 * q < p` is then `2 * (R - 1) < c + 2`.  Without it the statement is false
-(the harness's livelock; `livelock_needs_helper_sends` says it is the only obstruction). -/
+(the harness's livelock; `livelock_needs_helper_sends` says it is the only obstruction).
+
+The collecting loop at the start of `_non_blocking_execution_main` needs no speed assumption: fairness
+alone ends every blocking receive (`collecting_terminates`). -/
+
+/-- every blocking receive of rank 0's collecting loop is served -/
+theorem collecting_terminates {st : Nat → State} {act : Nat → Option Action}
+    (hexec : IsExec st act) (hinv : Inv (st 0)) (hmono : Mono (st 0))
+    (hslices : ∀ n a, act n = some a → slicePos a = true) (hfair : Fair st act)
+    (n k : Nat) (hd : (st n).pc0 = .collecting k) :
+    ∃ m, n ≤ m ∧ (st m).pc0 ≠ .collecting k :=
+  FairExec.collecting_ends ⟨hexec, hinv, hmono, hslices, hfair⟩ n k hd
 
 /-- every drain phase of rank 0 ends -/
 theorem drain_phase_terminates {st : Nat → State} {act : Nat → Option Action} {p q D : Nat}
@@ -302,30 +321,32 @@ theorem exec_reachable {st : Nat → State} {act : Nat → Option Action} (hexec
   have := run_reachable (run_seg hexec 0 n)
   rwa [Nat.zero_add] at this
 
-/-- termination of one call, with what the safety part says about the state it ends in: every rank has
-returned, no AGE_UPDATE / EXIT_NOTIFICATION message is left, and `R * target ≤ Σ ages` -/
-theorem terminates_fair_call {R sync target archAge : Nat} {ages : List Nat} (hR : 0 < R)
-    (hpre : CallPre R target archAge ages) {st : Nat → State} {act : Nat → Option Action} {p q D : Nat}
-    (hstart : st 0 = initial R sync target ages archAge) (hexec : IsExec st act)
+/-- termination of one call (no precondition on the call), with what the safety part says about the state
+it ends in: every rank has returned, no AGE_UPDATE / EXIT_NOTIFICATION message is left, and the island
+ages have advanced by at least `n` on average: `Σ (ages at the start) + R * n ≤ Σ ages` -/
+theorem terminates_fair_call {R sync n : Nat} {ages : List Nat} (hR : 0 < R)
+    {st : Nat → State} {act : Nat → Option Action} {p q D : Nat}
+    (hstart : st 0 = initial R sync n ages) (hexec : IsExec st act)
     (hslices : ∀ n a, act n = some a → slicePos a = true) (hfair : Fair st act)
     (hspeed : SpeedBound st act p q D) (hpq : 2 * q < p) :
-    ∃ n, isFinal (st n) = true ∧ (st n).mbox = [] ∧ (∀ r, (st n).exitQ.getD r 0 = 0) ∧ R * target ≤ (st n).ages.sum := by
-  have hinv : Inv (st 0) := by rw [hstart]; exact inv_initial R sync target ages archAge hR hpre
-  have hmono : Mono (st 0) := by rw [hstart]; exact mono_initial R sync target ages archAge
-  obtain ⟨n, hn⟩ := terminates_fair st act p q D hexec hinv hmono hslices hfair hspeed hpq
-  have hreach := exec_reachable hexec n
+    ∃ m, isFinal (st m) = true ∧ (st m).mbox = [] ∧ (∀ r, (st m).exitQ.getD r 0 = 0) ∧
+      ((List.range R).map fun r => ages.getD r 0).sum + R * n ≤ (st m).ages.sum := by
+  have hinv : Inv (st 0) := by rw [hstart]; exact inv_initial R sync n ages hR
+  have hmono : Mono (st 0) := by rw [hstart]; exact mono_initial R sync n ages
+  obtain ⟨m, hm⟩ := terminates_fair st act p q D hexec hinv hmono hslices hfair hspeed hpq
+  have hreach := exec_reachable hexec m
   rw [hstart] at hreach
-  obtain ⟨h1, h2⟩ := clean_return hR hpre hreach hn
-  exact ⟨n, hn, h1, h2, ages_nonblocking hR hpre hreach hn⟩
+  obtain ⟨h1, h2⟩ := clean_return hR hreach hm
+  exact ⟨m, hm, h1, h2, ages_advance hR hreach hm⟩
 
 /-- non-vacuity of the hypotheses of `terminates_fair_call`: the complete run of the first example (with
 two scheduling points inside slices added), continued by stuttering, is a fair execution of a call with
 `R = 2`, and it satisfies `SpeedBound 3 1 6` (`2 * 1 < 3`) -/
 example :
     let s0 := initial 2 1 1 [0, 0]
-    let as := [Action.isend 1 0 tagAge, .iprobe 1 (some 0) tagExit none, .tick 0, .tick 1, .evolve 1 1, .evolve 0 1,
-      .iprobe 0 none tagAge (some 1), .recv 0 1 tagAge, .isend 1 0 tagAge, .iprobe 0 none tagAge (some 1),
-      .recv 0 1 tagAge, .iprobe 0 none tagAge none, .isend 0 1 tagExit, .barrierEnter 0,
+    let as := [Action.isend 1 0 tagAge, .recv 0 1 tagAge, .iprobe 1 (some 0) tagExit none, .tick 0, .tick 1,
+      .evolve 1 1, .evolve 0 1, .isend 1 0 tagAge, .iprobe 0 none tagAge (some 1), .recv 0 1 tagAge,
+      .iprobe 0 none tagAge none, .isend 0 1 tagExit, .barrierEnter 0,
       .iprobe 1 (some 0) tagExit (some 0), .recv 1 0 tagExit, .barrierEnter 1, .barrierLeave 0,
       .iprobe 0 none tagAge none, .barrierLeave 1]
     stOf s0 as 0 = s0 ∧ IsExec (stOf s0 as) (actOf as) ∧ (∀ n a, actOf as n = some a → slicePos a = true) ∧
@@ -350,18 +371,19 @@ example :
 /-! ## the speed assumption cannot be dropped -/
 
 /-- **the livelock**: a fair execution of one call on two ranks (`sync = 1`, one generation requested,
-every slice adds one generation) in which no rank ever returns.  After the helper's first age update and
-rank 0's first slice the period "rank 0 probes and finds an update; the helper probes for the exit
+every slice adds one generation) in which no rank ever returns.  After the helper's first age update, rank
+0's collecting receive, one loop iteration of the helper and rank 0's first slice, the period "rank 0 probes and finds an update; the helper probes for the exit
 notification, evolves a slice, sends its age; rank 0 receives" repeats forever
 (`Proofs/Lemmas/ParArchLiveLock.lean`).  Both ranks perform protocol operations in every period, so no
 fairness notion that only talks about who gets to move excludes it. -/
 theorem livelock_exists :
     ∃ (st : Nat → State) (act : Nat → Option Action),
       st 0 = initial 2 1 1 [0, 0] ∧ IsExec st act ∧ (∀ n a, act n = some a → slicePos a = true) ∧
-      Fair st act ∧ (∀ n, isFinal (st n) = false) ∧ (∀ n, 2 ≤ n → isDraining (st n).pc0 = true) :=
-  ⟨lockFullSt, lockFullAct, rfl, lockFull_isExec, lockFull_slices, lockFull_fair, lockFull_not_final,
+      Fair st act ∧ (∀ n, isFinal (st n) = false) ∧ (∀ n, 6 ≤ n → isDraining (st n).pc0 = true) :=
+  ⟨lockFullSt, lockFullAct, lockFull_start, lockFull_isExec, lockFull_slices, lockFull_fair, lockFull_not_final,
     fun n hn => by
-      obtain ⟨k, rfl⟩ : ∃ k, n = k + 2 := ⟨n - 2, by omega⟩
+      obtain ⟨k, rfl⟩ : ∃ k, n = k + 6 := ⟨n - 6, by omega⟩
+      rw [(lockFull_ge k).1]
       exact lock_draining k⟩
 
 /-- fairness alone does not give termination -/
@@ -370,8 +392,8 @@ theorem termination_needs_speed_assumption :
         (∀ n a, act n = some a → slicePos a = true) → Fair st act → ∃ n, isFinal (st n) = true) := by
   intro h
   obtain ⟨st, act, h0, hexec, hsl, hfair, hnf, _⟩ := livelock_exists
-  have hinv : Inv (st 0) := by rw [h0]; exact inv_initial 2 1 1 [0, 0] 0 (by decide) (Or.inl (by decide))
-  have hmono : Mono (st 0) := by rw [h0]; exact mono_initial 2 1 1 [0, 0] 0
+  have hinv : Inv (st 0) := by rw [h0]; exact inv_initial 2 1 1 [0, 0] (by decide)
+  have hmono : Mono (st 0) := by rw [h0]; exact mono_initial 2 1 1 [0, 0]
   obtain ⟨n, hn⟩ := h st act hexec hinv hmono hsl hfair
   rw [hnf n] at hn; cases hn
 
@@ -380,8 +402,8 @@ bound with `2 * q < p`, whatever the slack -/
 theorem livelock_violates_speed_bound (p q D : Nat) (hpq : 2 * q < p) :
     ¬ SpeedBound lockFullSt lockFullAct p q D := by
   intro hsp
-  have hinv : Inv (lockFullSt 0) := inv_initial 2 1 1 [0, 0] 0 (by decide) (Or.inl (by decide))
-  have hmono : Mono (lockFullSt 0) := mono_initial 2 1 1 [0, 0] 0
+  have hinv : Inv (lockFullSt 0) := inv_initial 2 1 1 [0, 0] (by decide)
+  have hmono : Mono (lockFullSt 0) := mono_initial 2 1 1 [0, 0]
   obtain ⟨n, hn⟩ := terminates_fair lockFullSt lockFullAct p q D lockFull_isExec hinv hmono lockFull_slices
     lockFull_fair hsp hpq
   rw [lockFull_not_final n] at hn; cases hn
